@@ -48,6 +48,8 @@ def run(ctx):
             raise lib.ModelFailure("MC_ProjDataStore: action %s never taken (vacuous model)" % act)
     # 2. record
     env = {"VERIF_SEED": str(ctx.seed)}
+    if not q:
+        env["C02_DEEP"] = "1"      # deeper bounds: 4 rings (up to 7 segments), 5 TOF bins more often
     scratch = "/var/tmp/C02-data-%d" % os.getpid()
     traces = []
     san_trace = None
